@@ -1,7 +1,7 @@
 """C04 - lift-over through nested coordinate systems composes and preserves sequence; chunk round trip."""
 import itertools
 
-from vlib import lib, worlds
+from vlib import lib, worlds  # noqa
 from vlib.model import loc as M
 from vlib.model import frame as F
 from vlib.runner import ShardResult
@@ -47,16 +47,25 @@ def level_specs(n_prev, kl):
             yield bl, s
 
 
-def build(G0, levels, leaf):
-    """levels: list of (blocks, strand) placing level i+1 on level i. Returns (leaf location, texts per level, types)."""
+def build(G0, levels, leaf, drop_top=False, chain_only=False):
+    """levels: list of (blocks, strand) placing level i+1 on level i. Returns (leaf location, texts per level, types).
+    drop_top: the same lower levels WITHOUT the top ancestor (level 1 becomes the root)."""
     texts = [G0]
     for bl, s in levels:
         texts.append(F.splice(texts[-1], M.P(bl, s), s))
     # parents from the top down
     par = Parent(id="L0", sequence_type="t0", sequence=Sequence(G0, ALPHA, id="L0", type="t0"))
     for i, (bl, s) in enumerate(levels):
+        if i == 0 and drop_top:
+            seq = Sequence(texts[1], ALPHA, id="L1", type="t1")
+            par = Parent(id="L1", sequence_type="t1", sequence=seq)
+            continue
         loc_on_prev = lib.mk_loc(bl, s, par)  # location of level i+1 on level i
-        seq = Sequence(texts[i + 1], ALPHA, id=f"L{i+1}", type=f"t{i+1}", parent=loc_on_prev.parent)
+        if chain_only:
+            # the other documented way to nest: the hierarchy is carried by Parent.parent only, sequences are bare
+            seq = Sequence(texts[i + 1], ALPHA, id=f"L{i+1}", type=f"t{i+1}")
+        else:
+            seq = Sequence(texts[i + 1], ALPHA, id=f"L{i+1}", type=f"t{i+1}", parent=loc_on_prev.parent)
         par = Parent(id=f"L{i+1}", sequence_type=f"t{i+1}", sequence=seq, parent=loc_on_prev.parent)
     L = lib.mk_loc(leaf[0], leaf[1], par)
     return L, texts
@@ -161,6 +170,118 @@ def check_hier(res, N0, levels, leaf):
             res.deviation("lift_over_to_sequence", dict(op="lift-foreign-seq", **case), o[1], "NoSuchAncestorException", sig="lift-foreign-seq")
 
 
+def check_truncated_twin(res, N0, levels, leaf, chain_only=False):
+    """Two hierarchies in ONE process that share every lower level but only one of which has the top ancestor: neither
+    may be answered from the other (the Parent constructor is memoised process-wide).  Both build orders."""
+    G0 = LETTERS[:N0]
+    d = len(levels)
+    case = dict(kind="twin", chain_only=chain_only, N0=N0, levels=[[list(map(list, bl)), s] for bl, s in levels], leaf=[list(map(list, leaf[0])), leaf[1]])
+    for order in ("full-first", "truncated-first"):
+        from vlib import bootstrap
+
+        bootstrap.clear_global_caches()
+        objs = {}
+        for which in (("full", "trunc") if order == "full-first" else ("trunc", "full")):
+            o = lib.outcome(build, G0, levels, leaf, which == "trunc", chain_only)
+            if o[0] != "ok":
+                res.deviation("build", dict(op="twin-build", order=order, **case), o[1], "hierarchy", sig="twin-build-raises")
+                return
+            objs[which] = o[1][0]
+        res.trans()
+        res.state(("twin", tuple(levels), leaf, order, chain_only))
+        res.nontriv(("twin", tuple(levels), leaf, order, chain_only))
+        full, trunc = objs["full"], objs["trunc"]
+        c = dict(op="twin", order=order, **case)
+        # the truncated hierarchy has no level-0 ancestor; the full one has
+        o1 = lib.outcome(trunc.has_ancestor_of_type, "t0")
+        o2 = lib.outcome(full.has_ancestor_of_type, "t0")
+        if o1 != ("ok", False) or o2 != ("ok", True):
+            res.deviation("has_ancestor_of_type", c, [o1[1], o2[1]], [False, True], sig="twin-ancestor")
+            continue
+        o = lib.outcome(trunc.lift_over_to_first_ancestor_of_type, "t0")
+        if o[0] == "ok" or not isinstance(o[2], NoSuchAncestorException):
+            res.deviation("lift_over_to_first_ancestor_of_type", c, o[1] if o[0] == "exc" else lib.canon_loc(o[1]), "NoSuchAncestorException", sig="twin-trunc-lift")
+        expP, expS = compose(levels, leaf, 0)
+        o = lib.outcome(full.lift_over_to_first_ancestor_of_type, "t0")
+        if o[0] != "ok" or M.P(lib.loc_blocks(o[1]), lib.loc_strand(o[1])) != expP or lib.loc_strand(o[1]) != expS:
+            res.deviation("lift_over_to_first_ancestor_of_type", c, lib.canon_loc(o[1]) if o[0] == "ok" else o[1], [expP, expS], sig="twin-full-lift")
+        if d >= 2:
+            expP1, expS1 = compose(levels, leaf, 1)
+            for nm, obj in (("trunc", trunc), ("full", full)):
+                o = lib.outcome(obj.lift_over_to_first_ancestor_of_type, "t1")
+                if o[0] != "ok" or M.P(lib.loc_blocks(o[1]), lib.loc_strand(o[1])) != expP1:
+                    res.deviation("lift_over_to_first_ancestor_of_type", dict(which=nm, **c), lib.canon_loc(o[1]) if o[0] == "ok" else o[1], expP1, sig="twin-t1-lift")
+
+
+def check_overlap_leaf(res, N0, levels, leaf):
+    """leaf with overlapping blocks: the lifted location must cover the same bases with the same multiplicity (the order
+    of overlapping blocks is the C01 representation limit and not judged here)"""
+    G0 = LETTERS[:N0]
+    case = dict(kind="ovl", N0=N0, levels=[[list(map(list, bl)), s] for bl, s in levels], leaf=[list(map(list, leaf[0])), leaf[1]])
+    o = lib.outcome(build, G0, levels, leaf)
+    if o[0] != "ok":
+        return
+    L, texts = o[1]
+    res.state(("ovl", tuple(levels), leaf))
+    res.nontriv(("ovl", tuple(levels), leaf))
+    lb = M.sort_blocks(leaf[0], leaf[1])
+    for upto in range(len(levels) - 1, -1, -1):
+        expP, expS = compose(levels, (lb, leaf[1]), upto)
+        o = lib.outcome(L.lift_over_to_first_ancestor_of_type, f"t{upto}")
+        res.trans()
+        c = dict(op="lift-overlap-leaf", upto=upto, **case)
+        if o[0] != "ok":
+            res.deviation("lift-overlap-leaf", c, o[1], sorted(expP), sig="ovl-raises")
+            continue
+        R = o[1]
+        got = M.P(lib.loc_blocks(R), lib.loc_strand(R))
+        if sorted(got) != sorted(expP) or lib.loc_strand(R) != expS or len(R) != len(expP):
+            res.deviation("lift-overlap-leaf", c, [sorted(got), lib.loc_strand(R)], [sorted(expP), expS], sig="ovl-positions")
+
+
+def check_chunk3(res, N, a, b, bl1, s1, leaf, c_, d_):
+    """location -> feature sequence -> chunk A [a,b) -> chromosome, re-lifted onto chunk B [c,d)"""
+    from inscripta.biocantor.io.parser import seq_chunk_to_parent
+
+    G = (LETTERS * 2)[:N]
+    parA = seq_chunk_to_parent(G[a:b], "chrV", a, b, alphabet=ALPHA)
+    loc_on_A = lib.mk_loc(bl1, s1, parA)
+    ftext = F.splice(G[a:b], M.P(bl1, s1), s1)
+    fseq = Sequence(ftext, ALPHA, id="feat", type="feature", parent=loc_on_A.parent)
+    fpar = Parent(id="feat", sequence_type="feature", sequence=fseq, parent=loc_on_A.parent)
+    L = lib.mk_loc(leaf[0], leaf[1], fpar)
+    parB = seq_chunk_to_parent(G[c_:d_], "chrV", c_, d_, alphabet=ALPHA)
+    case = dict(kind="chunk3", N=N, a=a, b=b, bl1=[list(x) for x in bl1], s1=s1, leaf=[[list(x) for x in leaf[0]], leaf[1]], c=c_, d=d_)
+    res.state(("chunk3", a, b, bl1, s1, leaf, c_, d_))
+    res.nontriv(("chunk3", a, b, bl1, s1, leaf, c_, d_))
+    # chromosome positions of the leaf
+    PA = M.P(bl1, s1)
+    chrom = [a + PA[q] for q in M.P(leaf[0], leaf[1])]
+    strand = M.strand_rel(leaf[1], s1)
+    inside = [p for p in chrom if c_ <= p < d_]
+    o = lib.outcome(AbstractInterval.liftover_location_to_seq_chunk_parent, L, parB)
+    res.trans()
+    if not inside:
+        res.note("chunk3", "no-overlap")
+        if o[0] == "ok" and len(o[1]) != 0:
+            res.deviation("liftover_location_to_seq_chunk_parent", case, lib.canon_loc(o[1]), "empty", sig="chunk3-not-empty")
+        elif o[0] == "exc" and not isinstance(o[2], LocationOverlapException):
+            res.deviation("liftover_location_to_seq_chunk_parent", case, o[1], "EmptyLocation", sig="chunk3-raises")
+        return
+    res.note("chunk3", "overlap")
+    if o[0] != "ok":
+        res.deviation("liftover_location_to_seq_chunk_parent", case, o[1], inside, sig="chunk3-raises")
+        return
+    R = o[1]
+    rb = lib.loc_blocks(R)
+    if any(x < 0 or y > d_ - c_ for x, y in rb):
+        res.deviation("liftover_location_to_seq_chunk_parent", case, rb, "inside chunk B", sig="chunk3-out-of-range")
+        return
+    got = [c_ + q for q in M.P(rb, lib.loc_strand(R))]
+    if got != inside or lib.loc_strand(R) != strand:
+        res.deviation("liftover_location_to_seq_chunk_parent", case, [got, lib.loc_strand(R)], [inside, strand], sig="chunk3-positions")
+
+
 def enum_hier(N0, D, kl):
     """yield (levels, leaf) for all depths 0..D-1 of nesting below the chromosome (depth d = number of placed levels)"""
     def rec(levels, n_prev, depth_left):
@@ -236,6 +357,25 @@ def run_shard(shard):
             if idx % NSH != shard["i"]:
                 continue
             check_hier(res, w["N0"], levels, leaf)
+        # hierarchies that share their lower levels (Parent memoisation) - depth 2..3, in both build orders
+        for idx, (levels, leaf) in enumerate(enum_hier(w["N0"] - 1, 3, 2)):
+            if idx % NSH != shard["i"] or len(levels) < 1 or len(leaf[0]) > 1:
+                continue
+            check_truncated_twin(res, w["N0"] - 1, list(levels), leaf)
+            check_truncated_twin(res, w["N0"] - 1, list(levels), leaf, chain_only=True)
+        # overlapping leaves below one or two levels
+        idx = 0
+        N0 = w["N0"]
+        for lv in level_specs(N0, 2):
+            n1 = sum(e - b for b, e in lv[0])
+            for leaf_bl in worlds.layouts(n1, 3, "overlap"):
+                if any(b == e for b, e in leaf_bl):
+                    continue  # zero-length blocks: whether they can be lifted at all is C01's zero-length clause
+                for ls in "+-":
+                    idx += 1
+                    if idx % NSH != shard["i"]:
+                        continue
+                    check_overlap_leaf(res, N0, [lv], (leaf_bl, ls))
         res.sample({"levels": [[[[1, 3], [4, 5]], "-"]], "leaf": [[[0, 2]], "+"], "composed": compose([(((1, 3), (4, 5)), "-")], (((0, 2),), "+"), 0)})
     else:
         N = w["Nc"]
@@ -248,16 +388,33 @@ def run_shard(shard):
                 for a, b in worlds.windows(N):
                     for cs in "+-":
                         check_chunk(res, N, bl, strand, a, b, cs)
+        # three-level case: location on a feature sequence placed on chunk A, re-lifted onto every chunk B
+        idx = 0
+        A = (1, N - 1)
+        for bl1, s1 in level_specs(A[1] - A[0], 2):
+            n1 = sum(e - b for b, e in bl1)
+            for leaf in level_specs(n1, 1):
+                idx += 1
+                if idx % 16 != shard["i"]:
+                    continue
+                for c_, d_ in worlds.windows(N):
+                    check_chunk3(res, N, A[0], A[1], bl1, s1, leaf, c_, d_)
         res.sample({"chunk": [2, 6], "location": [[1, 3], [5, 7]], "expected_inside": [2, 5]})
     return res
 
 
 def replay(case):
     res = ShardResult()
-    if case["kind"] == "hier":
+    if case["kind"] in ("hier", "twin", "ovl"):
         levels = tuple((tuple(tuple(b) for b in bl), s) for bl, s in case["levels"])
         leaf = (tuple(tuple(b) for b in case["leaf"][0]), case["leaf"][1])
-        check_hier(res, case["N0"], list(levels), leaf)
+        if case["kind"] == "twin":
+            check_truncated_twin(res, case["N0"], list(levels), leaf, case.get("chain_only", False))
+        else:
+            {"hier": check_hier, "ovl": check_overlap_leaf}[case["kind"]](res, case["N0"], list(levels), leaf)
+    elif case["kind"] == "chunk3":
+        check_chunk3(res, case["N"], case["a"], case["b"], tuple(tuple(x) for x in case["bl1"]), case["s1"],
+                     (tuple(tuple(x) for x in case["leaf"][0]), case["leaf"][1]), case["c"], case["d"])
     else:
         check_chunk(res, case["N"], tuple(tuple(b) for b in case["blocks"]), case["strand"], case["a"], case["b"], case["cstrand"])
     devs = [d for d in res.deviations if d["case"].get("op") == case.get("op") and d["case"].get("upto") == case.get("upto")]
